@@ -638,6 +638,8 @@ impl File {
         self.failed_runid = None;
         self.is_override = false;
         self.is_generated = false;
+        // A checksum describes content we generated; the file is not ours now.
+        self.csum = String::new();
         Ok(())
     }
 
@@ -645,6 +647,11 @@ impl File {
         self.update_stamp(v, false)?;
         self.failed_runid = None;
         self.is_override = true;
+        // The recorded checksum describes what we generated, not the file the
+        // user put there.  Keeping it would make a later rebuild with the old
+        // content look "unchanged" to redo-stamp although the dependents
+        // have meanwhile been built from the user's version.
+        self.csum = String::new();
         Ok(())
     }
 
